@@ -65,17 +65,51 @@ func only(in []*niInst) []*niInst {
 	return out
 }
 
-// safeVerify turns a panic inside the library's Verify into an error value with a marker.
-func safeVerify(n *niInst, c compiler.Name, ctx *session.Context, sel stmtSel, proof []byte) (err error, panicked bool) {
+// libSite extracts the first library frame below the panic from a Go stack dump (the function that panicked, or
+// the closest library function), e.g. "base/nt/num.(*NatPlus).Mul". It keys panic findings by their cause.
+func libSite(stack string) string {
+	const pfx = "github.com/bronlabs/bron-crypto/pkg/"
+	lines := strings.Split(stack, "\n")
+	start := 0
+	for i, l := range lines {
+		if strings.HasPrefix(l, "panic(") || strings.HasPrefix(l, "panic:") {
+			start = i
+		}
+	}
+	for _, l := range lines[start:] {
+		l = strings.TrimSpace(l)
+		if strings.HasPrefix(l, pfx) {
+			l = strings.TrimPrefix(l, pfx)
+			if j := strings.LastIndexByte(l, '('); j > 0 {
+				l = l[:j]
+			}
+			return l
+		}
+	}
+	return "unknown-site"
+}
+
+// guard runs f and converts a panic into (message, library site).
+func guard(f func()) (msg, site string) {
 	defer func() {
 		if r := recover(); r != nil {
 			if he, ok := r.(engine.HarnessError); ok {
 				panic(he)
 			}
-			err, panicked = fmt.Errorf("PANIC: %v", r), true
+			msg, site = fmt.Sprint(r), libSite(string(debug.Stack()))
 		}
 	}()
-	return n.verify(c, ctx, sel, proof), false
+	f()
+	return "", ""
+}
+
+// safeVerify turns a panic inside the library's Verify into an error value; site names where it panicked.
+func safeVerify(n *niInst, c compiler.Name, ctx *session.Context, sel stmtSel, proof []byte) (err error, site string) {
+	msg, site := guard(func() { err = n.verify(c, ctx, sel, proof) })
+	if site != "" {
+		return fmt.Errorf("PANIC: %s", msg), site
+	}
+	return err, ""
 }
 
 func hexShort(b []byte) string {
@@ -258,11 +292,11 @@ func contextBody(cfgs []cfg) func(*engine.X) {
 		// group 0..len(edits)-1: one context pair each; last group: replay, names, compilers, statements, instances
 		grp := x.Choose("group", len(edits)+1)
 		acc, rej := 0, 0
-		expect := func(key, what string, err error, panicked, wantAccept bool) {
+		expect := func(key, what string, err error, site string, wantAccept bool) {
 			x.Case(cf.String() + "/" + what)
 			switch {
-			case panicked:
-				x.Failf("panic/"+compShort(c)+"/"+key, "%s: Verify panicked (%s): %v", cf, what, err)
+			case site != "":
+				x.Failf("panic@"+site, "%s: Verify panicked in %s (%s): %v", cf, site, what, err)
 			case wantAccept && err != nil:
 				x.Failf("complete/"+compShort(c)+"/"+key, "%s: honest proof rejected (%s): %v", cf, what, err)
 			case !wantAccept && err == nil:
@@ -304,8 +338,10 @@ func contextBody(cfgs []cfg) func(*engine.X) {
 			expect("context/replay-on-advanced-transcript", "the verifier context had already consumed this proof", verr, pan, false)
 		}
 		// other protocol name
-		verr, pan := safeVerify(n, c, verifierCtx().build(), stmtSel{renamed: true}, proof)
-		expect("context/other-protocol-name", "the verifier's protocol carries another name", verr, pan, false)
+		if !n.noRename {
+			verr, pan := safeVerify(n, c, verifierCtx().build(), stmtSel{renamed: true}, proof)
+			expect("context/other-protocol-name", "the verifier's protocol carries another name", verr, pan, false)
+		}
 		// other compiler
 		for _, oc := range compilers {
 			if oc == c || n.compileErr(oc) != nil {
@@ -320,7 +356,7 @@ func contextBody(cfgs []cfg) func(*engine.X) {
 			expect("statement/component", "statement edit "+an, verr, pan, false)
 		}
 		// proof of instance j presented for instance k (both directions)
-		verr, pan = safeVerify(n, c, verifierCtx().build(), stmtSel{kind: 1}, proof)
+		verr, pan := safeVerify(n, c, verifierCtx().build(), stmtSel{kind: 1}, proof)
 		expect("statement/other-instance", "proof of instance 0 presented for instance 1", verr, pan, false)
 		proof1, err := n.honest(c, proverCtx(), 1)
 		if err != nil {
@@ -393,29 +429,40 @@ func proofEditBody(cfgs []cfg) func(*engine.X) {
 				continue
 			}
 			var verr error
-			var pan bool
-			if np, derr := n.nils(c, edited); derr == nil && !sameStrings(np, baseNils) {
+			var np []string
+			var derr error
+			_, dsite := guard(func() { np, derr = n.nils(c, edited) })
+			switch {
+			case dsite != "":
+				// the proof DECODER panics on this input; Verify decodes in the caller's goroutine, so confirm in-process
+				var site string
+				verr, site = safeVerify(n, c, verifierCtx().build(), stmtSel{}, edited)
+				if site != "" {
+					x.Failf("panic@"+site, "%s: Verify panicked while decoding the edited proof, in %s (%s): %v\n edited proof: %s", cf, site, ed.desc, verr, hexShort(edited))
+					continue
+				}
+			case derr == nil && !sameStrings(np, baseNils):
 				// the decoder admitted a nil component: Verify may dereference it inside a library goroutine, which
 				// would terminate this process, so this one verification runs in a child process
-				cls := nilClass(baseNils, np)
 				isolated++
 				res := runChild("ni|"+n.name+"|"+string(c), []byte(hex.EncodeToString(edited)))
 				switch res.outcome {
 				case "CRASH":
-					x.Failf("crash/"+cls, "%s: Verify TERMINATED THE PROCESS (panic in a library goroutine) on edited proof (%s): %s\n edited proof: %s", cf, ed.desc, res.detail, hexShort(edited))
+					x.Failf("crash@"+res.site, "%s: Verify TERMINATED THE PROCESS (unrecoverable panic in a library goroutine, in %s) on edited proof (%s): %s\n edited proof: %s", cf, res.site, ed.desc, res.detail, hexShort(edited))
 					continue
 				case "PANIC":
-					x.Failf("panic/"+cls, "%s: Verify panicked on edited proof (%s): %s\n edited proof: %s", cf, ed.desc, res.detail, hexShort(edited))
+					x.Failf("panic@"+res.site, "%s: Verify panicked in %s on edited proof (%s): %s\n edited proof: %s", cf, res.site, ed.desc, res.detail, hexShort(edited))
 					continue
 				case "REJECT":
 					verr = fmt.Errorf("%s", res.detail)
 				}
-			} else {
-				verr, pan = safeVerify(n, c, verifierCtx().build(), stmtSel{}, edited)
-			}
-			if pan {
-				x.Failf("panic/"+compShort(c)+"/"+panicClass(ed.class, ed.desc), "%s: Verify panicked on edited proof (%s): %v\n edited proof: %s", cf, ed.desc, verr, hexShort(edited))
-				continue
+			default:
+				var site string
+				verr, site = safeVerify(n, c, verifierCtx().build(), stmtSel{}, edited)
+				if site != "" {
+					x.Failf("panic@"+site, "%s: Verify panicked in %s on edited proof (%s): %v\n edited proof: %s", cf, site, ed.desc, verr, hexShort(edited))
+					continue
+				}
 			}
 			if verr != nil {
 				rejected++
@@ -423,7 +470,12 @@ func proofEditBody(cfgs []cfg) func(*engine.X) {
 				continue
 			}
 			// accepted: the mechanical exemption — the edit re-encodes the very same values
-			if rec, rerr := n.recode(c, edited); rerr == nil && bytes.Equal(rec, orig) {
+			var rec []byte
+			var rerr error
+			if _, s := guard(func() { rec, rerr = n.recode(c, edited) }); s != "" {
+				rerr = fmt.Errorf("recode panicked")
+			}
+			if rerr == nil && bytes.Equal(rec, orig) {
 				exempt++
 				classes["exempt:"+ed.class]++
 				continue
@@ -484,10 +536,18 @@ var heavyOnce = sync.OnceValue(func() []*niInst {
 		nthrootCase(1024).ni(), rangeCase(1024).ni(), prmCase(512).ni(),
 		encCase(1024).ni(), encelgCase(1024).ni(), facCase(1024).ni(), blummodCase(1024).ni(),
 		affgCase(2048).ni(), affgstarCase(2048).ni(), decCase(2048).ni(),
+		paillierNInst(1024),
 	}
 })
 
 func heavyInsts() []*niInst { return heavyOnce() }
+
+// interactiveInsts: the interactive Paillier protocols (LP with k = 3 repetitions, LPDL), 1024-bit key.
+var interactiveOnce = sync.OnceValue(func() []*interactive {
+	return []*interactive{lpCase(1024, 3), lpdlCase(1024)}
+})
+
+func interactiveInsts() []*interactive { return interactiveOnce() }
 
 func TestCheck(t *testing.T) {
 	engine.Rule("protocol x composition {plain, AND2, AND3, OR-left, OR-right} x compiler {Fiat-Shamir, Fischlin, randomised Fischlin} x group; per configuration one honest proof (fixed deterministic randomness) and then EVERY listed single edit: 19 prover/verifier context pairs, replay, other protocol name, other compiler, each statement component replaced, other instance; every CBOR-tree edit of the proof bytes (every bit of every leaf <= 64 B, else LSB/middle/MSB; key/tag edits; leaf swaps; drop/duplicate/blank of every component; array truncate/extend; re-wraps; splice of the same leaf from another valid proof). A case is distinct by (configuration, edit description); non-trivial = Verify was called on bytes different from the original. Sigma level: 4 challenges {0,1,ff..ff,pattern} on one commitment, all 12 ordered pairs through the extractor, 4 simulator runs. Interactive compiler: honest run + every bit of the raw messages + every CBOR edit of the structured messages.")
@@ -535,10 +595,13 @@ func TestCheck(t *testing.T) {
 	var heavyZk []*niInst
 	for _, n := range heavy {
 		u := n.unitMS
-		if u <= 50 || (engine.Thorough() && u <= 500) {
+		if n.zkRun != nil && (u <= 50 || (engine.Thorough() && u <= 500)) {
 			heavyZk = append(heavyZk, n)
 		}
 		for _, c := range compilers {
+			if n.sigmaLevel == nil && c != fiatshamir.Name {
+				continue // pailliern is its own non-interactive proof
+			}
 			cf := cfg{n: n, c: c, light: true, chunk: max(1, min(96, 2000/u))}
 			switch {
 			case c != fiatshamir.Name:
@@ -574,14 +637,46 @@ func TestCheck(t *testing.T) {
 		engine.Explore(sigmaBody(all), engine.Opts{Name: "sigma-level/ec", Budget: engine.Budget(2*time.Minute, 10*time.Minute)})
 		engine.Explore(zkBody(zkSet), engine.Opts{Name: "zk-compiler/ec", MaxFails: 1 << 20, Budget: engine.Budget(3*time.Minute, 30*time.Minute)})
 	}
-	if len(heavy) == 0 {
-		return
+	var sec *engine.Section
+	if len(heavy) > 0 {
+		var heavySigma []*niInst
+		for _, n := range heavy {
+			if n.sigmaLevel != nil {
+				heavySigma = append(heavySigma, n)
+			}
+		}
+		if len(heavySigma) > 0 {
+			engine.Explore(admissionBody(heavySigma), engine.Opts{Name: "admission/paillier", Budget: engine.Budget(time.Minute, 5*time.Minute)})
+		}
+		engine.Explore(contextBody(heavyCfgs), engine.Opts{Name: "context+statement/paillier", MaxFails: 1 << 20, Budget: engine.Budget(4*time.Minute, 30*time.Minute)})
+		sec = engine.Explore(proofEditBody(heavyCfgs), engine.Opts{Name: "proof-edits/paillier", MaxFails: 1 << 20, Budget: engine.Budget(6*time.Minute, 90*time.Minute)})
+		if len(heavySigma) > 0 {
+			engine.Explore(sigmaBody(heavySigma), engine.Opts{Name: "sigma-level/paillier", Budget: engine.Budget(3*time.Minute, 15*time.Minute)})
+		}
+		if len(heavyZk) > 0 {
+			engine.Explore(zkBody(heavyZk), engine.Opts{Name: "zk-compiler/paillier", MaxFails: 1 << 20, Budget: engine.Budget(3*time.Minute, 30*time.Minute)})
+		}
 	}
-
-	engine.Explore(admissionBody(heavy), engine.Opts{Name: "admission/paillier", Budget: engine.Budget(time.Minute, 5*time.Minute)})
-	engine.Explore(contextBody(heavyCfgs), engine.Opts{Name: "context+statement/paillier", MaxFails: 1 << 20, Budget: engine.Budget(4*time.Minute, 30*time.Minute)})
-	sec := engine.Explore(proofEditBody(heavyCfgs), engine.Opts{Name: "proof-edits/paillier", MaxFails: 1 << 20, Budget: engine.Budget(6*time.Minute, 90*time.Minute)})
-	engine.Explore(sigmaBody(heavy), engine.Opts{Name: "sigma-level/paillier", Budget: engine.Budget(3*time.Minute, 15*time.Minute)})
-	engine.Explore(zkBody(heavyZk), engine.Opts{Name: "zk-compiler/paillier", MaxFails: 1 << 20, Budget: engine.Budget(3*time.Minute, 30*time.Minute)})
-	sec.Note("verifications isolated in child processes (decoded proof carried a nil component): %d, of which the child was killed by an unrecoverable panic: %d; total child wall time %.1fs", childCount.Load(), childCrashes.Load(), float64(childNanos.Load())/1e9)
+	ias := interactiveInsts()
+	if !engine.Thorough() {
+		ias = ias[:1] // LPDL (two ~0.5 s range-proof passes per run) is explored in the thorough tier only
+	}
+	if f := os.Getenv("VERIF_C08_ONLY"); f != "" {
+		var keep []*interactive
+		for _, ia := range ias {
+			if strings.Contains(ia.name, f) {
+				keep = append(keep, ia)
+			}
+		}
+		ias = keep
+	}
+	if len(ias) > 0 {
+		s2 := engine.Explore(iaBody(ias), engine.Opts{Name: "interactive/paillier", MaxFails: 1 << 20, Budget: engine.Budget(3*time.Minute, 40*time.Minute)})
+		if sec == nil {
+			sec = s2
+		}
+	}
+	if sec != nil {
+		sec.Note("verifications isolated in child processes (decoded value carried a nil component): %d, of which the child was killed by an unrecoverable panic: %d; total child wall time %.1fs", childCount.Load(), childCrashes.Load(), float64(childNanos.Load())/1e9)
+	}
 }
